@@ -6,12 +6,12 @@ def plan(tier, seed):
     jobs = []
     for c in ("TensorDictDataset", "FastTdDataset", "TensorDictDatasetFastGeneration"):
         for ex in (False, True):
-            for N in ([3] if tier == "quick" else [1, 3, 5]):
+            for N in ([4] if tier == "quick" else [1, 3, 4, 5]):
                 jobs.append({"id": f"C17:{c} N={N} extra={ex}", "module": "vf.datajobs", "func": "dataset_job", "params": dict(cls_name=c, N=N, extra=ex)})
     for N, bs in ([(3, 2)] if tier == "quick" else [(3, 1), (3, 2), (3, 4), (4, 3)]):
         jobs.append({"id": f"C17:rollout baseline N={N} eval_bs={bs}", "module": "vf.datajobs", "func": "rollout_job", "params": dict(N=N, eval_bs=bs)})
     return {"jobs": jobs, "level": "model_checking",
-            "bounds": "N<=5 instances, every batch size 1..N+1 (final partial batch), shuffle = identity and all permutations (N<=3) or two fixed ones; element values are distinct solver variables",
+            "bounds": "N<=5 instances, every batch size 1..N+1 (final partial batch), sequential order and a SYMBOLIC shuffle permutation (distinct solver integers: every order a sampler can produce; list-backed datasets case-split it, tensor-backed ones index with it symbolically); element values are distinct solver variables",
             "outside": "multi-worker loading, pinned memory, the DataLoader implementation itself (contract stub)",
             "evidence": {"explanation_of_solver_role": "equalities between what is read back and the original instance are decided on terms: for correct code both sides are the same z3 term, so the obligation folds to true before a query is issued; a mix-up yields two different variables and a satisfiable disequality"}}
 
